@@ -614,7 +614,7 @@ func (w *world) run(r *hx.Run, c caseT) {
 	if strings.Join(gotSeq, ",") != strings.Join(wantSeq[:min(len(gotSeq), len(wantSeq))], ",") {
 		r.Outcome("recorded:call-order-or-repetition-differs-from-list-order")
 	}
-	if want {
+	if want && got {
 		// authenticity passed: every listed store of the required type must have been asked, otherwise the verdict
 		// cannot depend on whether it loads
 		for _, wstore := range wantSeq {
